@@ -61,6 +61,13 @@ CHECKS = [
              "up to 2 MB, compressible and incompressible); every read is validated by TLC against ContainerReaderAbs (Trace_Reader, intact).",
      "note": TLC_NOTE + " Compression libraries are uninterpreted (called directly by the harness for de-framing).",
      "technique": "TLA+ models (CodecLoop.tla, ContainerWriter.tla) checked by TLC + write/read round trips on the real code trace-validated by TLC (Trace_Reader)"},
+    {"property_id": "C17", "level": "model_checking", "design_ref": "DESIGN.md §6 C17",
+     "text": "ContainerReaderAbs is written as a TLA+ trace specification (Trace_Reader.tla: prefix rule for truncation, must-report rule for the named "
+             "corruptions, once-then-end-of-stream latch for unrecoverable errors using the reader state from hooks, sticky end of stream) whose rules are "
+             "sanity-checked on every run; the real reader is run on one 3-block file per codec cut at EVERY offset, with every named corruption of every "
+             "block, single-byte corruption at every offset and an I/O error at every refill index, and each run is validated by TLC.",
+     "note": TLC_NOTE,
+     "technique": "abstract reader property as a TLA+ trace spec; exhaustive fault enumeration over real files (every offset / refill index), each run trace-validated by TLC"},
     {"property_id": "C12", "level": "model_checking", "design_ref": "DESIGN.md §6 C12",
      "text": "TLC checks that the implementation-shaped skipping semantics (AvroSkip.tla: unvalidated strings, unsigned varints, jumping over sized blocks) "
              "ends exactly where Dec ends for every layout of every enumerated value; the real decoder is run with every sub-tree (two levels) ignored, "
